@@ -23,7 +23,55 @@ fn cost_of(r: &InsertionResult) -> Value {
     }
 }
 
+/// op "layouts": a whole Solver run of one core problem (many small tours) under each Parallelism::new(pools, threads) layout;
+/// returns per layout the tours (job ids in order, vehicle) and the unassigned job ids of the returned solution
+fn run_layouts(case: &Value) -> Value {
+    use vrp_core::prelude::{Solver, VrpConfigBuilder};
+    use vrp_core::rosomaxa::prelude::Environment;
+    use vrp_core::rosomaxa::utils::{DefaultRandom, Parallelism};
+    let vehicles: Vec<Vehicle> =
+        case["vehicles"].as_array().unwrap().iter().enumerate().map(|(k, v)| vehicle_of(v, &format!("v{k}"))).collect();
+    let jobs: Vec<Job> = case["jobs"].as_array().unwrap().iter().map(job_of).collect();
+    let generations = usize_of(&case["generations"]);
+    let mut out = vec![];
+    for l in case["layouts"].as_array().unwrap() {
+        let world = build_world(case, vehicles.clone(), jobs.clone(), "unassigned+tours+cost");
+        let parallelism = if l.is_null() { Parallelism::default() } else { Parallelism::new(usize_of(&l[0]), usize_of(&l[1])) };
+        let environment =
+            Arc::new(Environment::new(Arc::new(DefaultRandom::default()), None, parallelism, Arc::new(|_: &str| {}), false));
+        let config = VrpConfigBuilder::new(world.problem.clone())
+            .set_environment(environment)
+            .prebuild()
+            .and_then(|b| b.with_max_generations(Some(generations)).build());
+        let res = match config.and_then(|c| Solver::new(world.problem.clone(), c).solve()) {
+            Ok(solution) => {
+                let routes: Vec<Value> = solution
+                    .routes
+                    .iter()
+                    .map(|r| {
+                        let jobs: Vec<String> = r
+                            .tour
+                            .all_activities()
+                            .filter_map(|a| a.retrieve_job())
+                            .map(|j| job_id(&j))
+                            .collect();
+                        json!({"vehicle": r.actor.vehicle.dimens.get_vehicle_id().cloned(), "jobs": jobs})
+                    })
+                    .collect();
+                let unassigned: Vec<String> = solution.unassigned.iter().map(|(j, _)| job_id(j)).collect();
+                json!({"layout": l, "routes": routes, "unassigned": unassigned})
+            }
+            Err(e) => json!({"layout": l, "error": format!("{e}")}),
+        };
+        out.push(res);
+    }
+    json!({"layouts": out})
+}
+
 fn run_case(case: &Value) -> Value {
+    if case["op"].as_str() == Some("layouts") {
+        return run_layouts(case);
+    }
     SHIFT.store(if case["cost_shift"].is_null() { 0 } else { i64_of(&case["cost_shift"]) }, std::sync::atomic::Ordering::Relaxed);
     let routes_desc = case["routes"].as_array().unwrap();
     let free_desc = case["free"].as_array().cloned().unwrap_or_default();
